@@ -13,8 +13,10 @@ Open Scope nat_scope.
 
 (* plan_ok net headway occs = true  <->  for every two different trains and every pair of their holdings:
    on opposite directions of a segment or on segments declared mutually exclusive the holding intervals
-   (front enters .. tail clears) do not overlap; on the same link the follower keeps the headway
-   (unless an opposing movement passed in between) and the order at exit / tail entry / release *)
+   (front enters .. tail clears) do not overlap; on the same link the follower keeps the headway at
+   BOTH ends -- it enters no sooner than the headway after the leader's tail entered, and its front
+   leaves no sooner than the headway after the leader's tail left (unless an opposing movement passed
+   in between) -- and the order at exit / tail entry / release *)
 Theorem C04_plan_ok_iff_NoConflict : forall (F : Type) (NO : NumOps F) net h (occs : list (list (occ (F:=F)))),
   plan_ok net h occs = true <-> NoConflict net h occs.
 Proof. intros F NO. exact (@plan_ok_iff F NO). Qed.
@@ -28,6 +30,12 @@ Proof. intros F NO. exact (@state_ok_sound F NO). Qed.
 Theorem C04_disjoint_reads : forall x y : occ (F:=R),
   Disjoint x y <-> (exists u, o_out x = Some u /\ (u <= o_in y)%R) \/ (exists u, o_out y = Some u /\ (u <= o_in x)%R).
 Proof. exact Disjoint_R. Qed.
+
+Theorem C04_headways_read : forall (h : R) (x y : occ (F:=R)),
+  (Headway h x y <-> exists c, o_ce x = Some c /\ (c + h <= o_in y)%R) /\
+  (ExitHeadway h x y <-> forall ya, o_ax y = Some ya -> (forall yo, o_out y = Some yo -> (ya < yo)%R) ->
+                           exists u, o_out x = Some u /\ (u + h <= ya)%R).
+Proof. intros h x y. split; [exact (Headway_R h x y)|exact (ExitHeadway_R h x y)]. Qed.
 
 (* the abstract ledger: one guarded step, and every reachable ledger *)
 Theorem C04_ledger_step_preserves : forall (F : Type) (NO : NumOps F) net h (led led' : ledger (F:=F)) op,
